@@ -91,6 +91,21 @@ def run(ctx):
                 ctx.ob("R-LAYOUT", "%s:length" % short(owner), ok,
                        "%s::new writes the struct's size (%s bytes) as the PDU length" % (short(owner), size),
                        where=bd.where(bi, si), detail=a[3])
+        if adt in owner_of:
+            # what the header announces is the length of what the PDU then holds (and `write` sends): the payload field of
+            # the owning struct is, on every path, the very parameter whose length went into the header
+            osites = [x for x in aggregates_of(f, owner) if not is_derived(x[0]) and root_fn(f, x[0].name).endswith("::new")]
+            for bd, bi, si, st in osites:
+                t = K.sym_of(bd).rvalue(st["rv"])
+                pay = [(k, strip_deep(v)) for k, v in t[3] if strip_deep(v) != strip_deep(("unknown",)) and
+                       (f.adts.get(owner) or {}) and k != rec["variants"][0]["fields"][0]["name"]]
+                ofields = [(fl["name"], fl["ty"]) for fl in (f.adts.get(owner) or {"variants": [{"fields": []}]})["variants"][0]["fields"]]
+                payload_fields = [nm for nm, ty in ofields if ty != adt]
+                vals = dict((str(k), strip_deep(v)) for k, v in t[3])
+                okp = len(payload_fields) == 1 and vals.get(payload_fields[0]) == strip_deep(K.sym_of(bd).local(bd.arg_count))
+                ctx.ob("R-FLOW", "%s:payload-stored-is-payload-measured" % short(owner), okp,
+                       "%s::new stores the very payload whose length it wrote into the header (on every path)" % short(owner),
+                       where=bd.where(bi, si), detail={k: render(v)[:120] for k, v in vals.items() if k in payload_fields})
         sb = f.body(adt + "::size")
         if sb is not None:
             got = _const_fn_value(f, adt + "::size")
@@ -330,6 +345,38 @@ def run(ctx):
         ctx.ob("R-GRD", "Aspa::read_payload:providers-multiple-of-4", ok,
                "Aspa::read_payload succeeds only if the provider list length is a multiple of 4", where=ab.loc,
                detail=None if ok else detail)
+    # the variable part is delivered only after a checked read_exact: the async function whose result fills the payload
+    # field (found by its output type) — and any awaited private helper it delegates to — passes `read_exact` on every
+    # success path.  `read`, `read_to_end`, `take(n)` … complete early at end of stream and would hand back less than
+    # the header announced.
+    def exact_read_sink(c, _seen=[]):
+        if c.name == "read_exact" and (c.trait or "").endswith("AsyncReadExt"):
+            return True
+        r = c.res or ""
+        fr = f.fns.get(r)
+        if fr and fr.get("async") and not fr.get("exported") and f.body(r + "::{closure#0}") is not None and r not in _seen and len(_seen) < 6:
+            _seen.append(r)
+            try:
+                return MustPass(f, exact_read_sink, name="read_exact").holds(r + "::{closure#0}")
+            finally:
+                _seen.pop()
+        return False
+    for owner, fx in ((P + "RouterKey", P + "RouterKeyFixed"), (P + "Aspa", P + "AspaFixed")):
+        ofields = [(fl["name"], fl["ty"]) for fl in (f.adts.get(owner) or {"variants": [{"fields": []}]})["variants"][0]["fields"]]
+        ptys = [ty for nm, ty in ofields if ty != fx]
+        rp = f.body(owner + "::read_payload::{closure#0}")
+        if rp is None or len(ptys) != 1:
+            continue
+        readers = sorted({c.res for c in rp.calls() if c.res in f.fns and f.fns[c.res].get("async") and
+                          ("Result<%s," % ptys[0]) in (f.fns[c.res].get("output") or "")})
+        if not readers:
+            ctx.missing("R-CHK", "%s:payload-reader" % short(owner), "an async fn delivering %s awaited by %s::read_payload" % (ptys[0], owner))
+        for r in readers:
+            mp = MustPass(f, exact_read_sink, name="read_exact")
+            okr = mp.holds(r + "::{closure#0}")
+            ctx.ob("R-CHK", "%s:delivers-only-after-read_exact" % short(r), okr,
+                   "%s delivers the variable part of the PDU only after a checked read_exact (nothing that completes early "
+                   "at end of stream)" % short(r), where=f.fns[r]["loc"], detail=None if okr else K.why(f, mp, r + "::{closure#0}"))
     # Payload::read: unknown PDU types fail; EndOfData: versions other than 0,1,2 fail.  Decided per value of the
     # (one-octet) header field: whichever way the dispatch is written — `match` on the field or on its accessor, an
     # `if` chain, range patterns — for every value the feasible edges are followed and what can be reached is compared
@@ -458,7 +505,7 @@ def run(ctx):
 
 
 # the AsyncReadExt operations that may complete after fewer bytes than there is room for
-_SHORT_READS = ("read", "read_buf")
+_SHORT_READS = ("read", "read_buf", "read_to_end", "read_to_string", "read_until", "read_line")
 
 
 def check_plain_reads(ctx, f):
